@@ -85,6 +85,31 @@ static void all(const std::string& id, const double* v) {
   std::printf("\n");
 }
 
+// static overloads called DIRECTLY with given eigenvalues / eigenvectors (no eigen solver in between):
+//   STATIC <N> <id> vp0 vp1 vp2 m00 m01 .. m22 eps   ->   T <id> <N> <fn> d(k*k, row major) | max difference with the overload taking values
+template <unsigned short N>
+static void static_overload(const std::string& id, const double* x) {
+  constexpr unsigned short k = StensorDimeToSize<N>::value;
+  const tvector<3u, double> vp{x[0], x[1], x[2]};
+  tmatrix<3u, 3u, double> m;
+  for (unsigned short i = 0; i < 3; ++i)
+    for (unsigned short j = 0; j < 3; ++j) m(i, j) = x[3 + 3 * i + j];
+  const double eps = x[12];
+  for (const auto& fn : fns) {
+    std::printf("T %s %d %s", id.c_str(), int(N), fn.name);
+    const st2tost2<N, double> d = stensor<N, double>::computeIsotropicFunctionDerivative(fn.f, fn.df, vp, m, eps);
+    const tvector<3u, double> fv{fn.f(vp[0]), fn.f(vp[1]), fn.f(vp[2])}, dfv{fn.df(vp[0]), fn.df(vp[1]), fn.df(vp[2])};
+    const st2tost2<N, double> d2 = stensor<N, double>::computeIsotropicFunctionDerivative(fv, dfv, vp, m, eps);
+    double dmax = 0;
+    for (unsigned short i = 0; i < k; ++i)
+      for (unsigned short j = 0; j < k; ++j) {
+        std::printf(" %a", d(i, j));
+        dmax = std::max(dmax, std::fabs(d(i, j) - d2(i, j)));
+      }
+    std::printf(" | %a\n", dmax);
+  }
+}
+
 int main() {
   std::string line;
   while (std::getline(std::cin, line)) {
@@ -93,6 +118,19 @@ int main() {
     std::string id;
     int n = 0;
     is >> id >> n;
+    if (id == "STATIC") {
+      std::string name;
+      is >> name;
+      double x[13];
+      for (int i = 0; i < 13; ++i) {
+        std::string t;
+        is >> t;
+        x[i] = std::strtod(t.c_str(), nullptr);
+      }
+      if (n == 2) static_overload<2u>(name, x);
+      else static_overload<3u>(name, x);
+      continue;
+    }
     double v[6] = {0, 0, 0, 0, 0, 0};
     for (int i = 0; i < (n == 2 ? 4 : 6); ++i) {
       std::string t;
